@@ -10,6 +10,7 @@
 From Verif.Lib Require Import GoSem Bits.
 From Verif.Model Require Import ValueSearch.
 From Verif.Proofs Require Import ValueSearchProofs.
+From Coq Require Import Sorted.
 
 (* 1. Standard client (and each half of the dual client): every value streamed by
    SearchValue -- hence the value returned by GetValue -- is accepted by the
@@ -137,6 +138,95 @@ Theorem c04_dual_getvalue_wan_first :
 Proof. reflexivity. Qed.
 Print Assumptions c04_dual_getvalue_wan_first.
 
+(* 9. TIES.  The validators of go-libp2p-record rank values and, among entries of
+   equal rank, Select returns the FIRST one.  [rank] is any such ranking of the
+   valid values of key [k] (a total preorder: byte-different valid values may
+   have the same rank), [sel] any Select that agrees with it on valid values:
+   index 1 iff the second entry is ranked strictly higher, index 0 otherwise.
+   Then the two laws of 3 and 7 hold (3 and 7 are not vacuous for a validator
+   with ties), and the property holds at full strength in terms of the rank: *)
+Definition rank_select (valid : vkey -> val -> bool) (sel : vkey -> val -> val -> option nat) (k : vkey) (rank : val -> N) : Prop :=
+  forall a b, valid k a = true -> valid k b = true ->
+    sel k a b = Some (if N.ltb (rank a) (rank b) then 1 else 0).
+
+Theorem c04_rank_select_laws :
+  forall valid sel k rank, rank_select valid sel k rank ->
+    (forall a b, valid k a = true -> valid k b = true -> sel k a b = Some 0 \/ sel k a b = Some 1) /\
+    (forall a b c, valid k a = true -> valid k b = true -> valid k c = true ->
+       sel k a b = Some 1 -> ge sel k a c -> ge sel k b c).
+Proof. intros valid sel k rank R. split; [exact (rank_total valid sel k rank R)|exact (rank_trans valid sel k rank R)]. Qed.
+Print Assumptions c04_rank_select_laws.
+
+(* 9a. the streamed values climb STRICTLY in rank: each one is ranked strictly
+   above every value streamed before it.  A value that ties with the best one
+   seen so far is never streamed; the stream cannot alternate between equally
+   ranked values; no value is streamed twice. *)
+Theorem c04_stream_strictly_improving_in_rank :
+  forall valid sel k rank, rank_select valid sel k rank ->
+  forall self local resps nvals,
+    StronglySorted (fun a b => (rank a < rank b)%N) (search_std valid sel k self local resps nvals).
+Proof. exact search_std_rank_increasing. Qed.
+Print Assumptions c04_stream_strictly_improving_in_rank.
+
+(* 9b. the final value (the last streamed value, the result of GetValue) is valid
+   and ranked at least as high as every valid value consumed before the search
+   ended -- the local record and every accepted answer up to the quorum stop,
+   tied ones included. *)
+Theorem c04_final_rank_maximal :
+  forall valid sel k rank, rank_select valid sel k rank ->
+  forall self local resps nvals x,
+    In x (map snd (consumed sel k nvals pv_init (local_std valid k self local ++ remote_arrivals valid k resps))) ->
+    exists f, get_value (search_std valid sel k self local resps nvals) = Some f /\ valid k f = true /\ (rank x <= rank f)%N.
+Proof. exact search_std_rank_final. Qed.
+Print Assumptions c04_final_rank_maximal.
+
+(* 9c. what processValues does with a valid value that is not ranked above the
+   current best and is not a byte-identical copy of it (a tie, or a worse
+   value): it counts towards the quorum, it is not streamed, best and
+   peersWithBest stay as they are (its sender is not recorded as holding the
+   best value). *)
+Theorem c04_tie_is_not_better :
+  forall valid sel k rank, rank_select valid sel k rank ->
+  forall nvals st p v b,
+    pv_aborted st = false -> pv_best st = Some b -> valid k b = true -> valid k v = true ->
+    b <> v -> (rank v <= rank b)%N ->
+    pv_step sel k nvals st (p, v) =
+      {| pv_best := Some b; pv_with_best := pv_with_best st; pv_n := S (pv_n st); pv_out := pv_out st;
+         pv_aborted := Nat.ltb 0 nvals && Nat.ltb nvals (S (pv_n st)) |}.
+Proof. exact pv_step_not_better. Qed.
+Print Assumptions c04_tie_is_not_better.
+
+(* 9d. the corrective put at the end of a search goes exactly to the closest peers
+   not recorded in peersWithBest (none if nothing was found or the quorum
+   stopped the search) -- with 9c: the sender of a tied value is among them. *)
+Theorem c04_fixup_targets :
+  forall closest st p,
+    In p (fixup_targets closest st) <->
+    In p closest /\ pv_best st <> None /\ pv_aborted st = false /\ ~ In p (pv_with_best st).
+Proof. exact fixup_targets_spec. Qed.
+Print Assumptions c04_fixup_targets.
+
+(* 9e. dual client, SearchValue: the merge of any interleaving of two streams of
+   valid values climbs strictly in rank and ends with a value of either stream
+   that is ranked at least as high as every value of both. *)
+Theorem c04_dual_merge_rank :
+  forall valid sel k rank, rank_select valid sel k rank ->
+  forall wan lan l, interleave wan lan l ->
+    (forall v, In v wan \/ In v lan -> valid k v = true) ->
+    StronglySorted (fun a b => (rank a < rank b)%N) (merge sel k l) /\
+    (forall x, In x wan \/ In x lan ->
+       exists f, get_value (merge sel k l) = Some f /\ (In f wan \/ In f lan) /\ (rank x <= rank f)%N).
+Proof.
+  intros valid sel k rank R wan lan l IL V.
+  assert (V': forall v, In v l -> valid k v = true) by (intros v Hv; apply V; apply (interleave_In _ _ _ IL); exact Hv).
+  split.
+  - exact (merge_rank_increasing valid sel k rank R l V').
+  - intros x Hx.
+    destruct (merge_rank_final valid sel k rank R l x V' (proj2 (interleave_In _ _ _ IL x) Hx)) as (f & G & Hf & Rk).
+    exists f. split; [exact G|]. split; [apply (interleave_In _ _ _ IL); exact Hf|exact Rk].
+Qed.
+Print Assumptions c04_dual_merge_rank.
+
 (* Non-vacuity: the sequence-number validator satisfies the two laws of 3 and 7
    at every key and time (on values without the Select-error flag), and a search
    over six answers -- stale, valid 5, mis-keyed, valid 7, nil, valid 6 -- with a
@@ -153,4 +243,37 @@ Proof.
   split; [vm_compute; reflexivity|].
   intros a b Ha Hb. unfold c_sel. rewrite Ha, Hb. simpl.
   destruct (N.ltb (c_seq a) (c_seq b)); auto.
+Qed.
+
+(* Non-vacuity with TIES: ex_t seq tag are byte-different valid values of rank seq.
+   The local record is (5, tag 0); the answers are (5, tag 1) -- a tie, not
+   streamed --, (7, tag 1), (7, tag 2) -- a tie with the new best --, (6, tag 0),
+   (7, tag 1) again, (5, tag 0): the stream is (5,0), (7,1) whatever the tags;
+   the four peers that answered with something else than the best value (7,1)
+   -- including peer 3, which sent the tied (7,2) -- are the targets of the
+   corrective put, peers 2 and 5 (which sent (7,1)) are not.  The validator
+   restricted to values without the Select-error flag is a [rank_select] with
+   rank = sequence number, and two values of equal rank and different bytes
+   exist. *)
+Definition ex_t (seq tag : N) : val := (seq + 256 * (4 * tag) + 65536 * 2000)%N.
+Definition ex_valid (now : N) (kk : vkey) (v : val) : bool := c_valid now kk v && negb (N.testbit (c_flags v) 1).
+Definition ex_arrivals : list (peer * resp) :=
+  [(1%N, RespRec 1%N (Some (ex_t 5 1))); (2%N, RespRec 1%N (Some (ex_t 7 1))); (3%N, RespRec 1%N (Some (ex_t 7 2)));
+   (4%N, RespRec 1%N (Some (ex_t 6 0))); (5%N, RespRec 1%N (Some (ex_t 7 1))); (6%N, RespRec 1%N (Some (ex_t 5 0)))].
+Example c04_nonvacuous_tie :
+  search_std (c_valid 1000%N) c_sel 1%N 0%N (Some (ex_t 5 0)) ex_arrivals 0 = [ex_t 5 0; ex_t 7 1]
+  /\ fixup_targets [1%N; 2%N; 3%N; 4%N; 5%N; 6%N]
+       (process_values c_sel 1%N 0 (local_std (c_valid 1000%N) 1%N 0%N (Some (ex_t 5 0)) ++ remote_arrivals (c_valid 1000%N) 1%N ex_arrivals))
+     = [1%N; 3%N; 4%N; 6%N]
+  /\ rank_select (ex_valid 1000%N) c_sel 1%N (c_rank 1%N)
+  /\ (ex_t 7 1 <> ex_t 7 2 /\ c_rank 1%N (ex_t 7 1) = c_rank 1%N (ex_t 7 2)
+      /\ ex_valid 1000%N 1%N (ex_t 7 1) = true /\ ex_valid 1000%N 1%N (ex_t 7 2) = true
+      /\ c_sel 1%N (ex_t 7 1) (ex_t 7 2) = Some 0 /\ c_sel 1%N (ex_t 7 2) (ex_t 7 1) = Some 0).
+Proof.
+  split; [vm_compute; reflexivity|]. split; [vm_compute; reflexivity|]. split.
+  - intros a b Va Vb. unfold ex_valid in Va, Vb.
+    apply andb_prop in Va. apply andb_prop in Vb. destruct Va as [_ Fa]. destruct Vb as [_ Fb].
+    apply Bool.negb_true_iff in Fa. apply Bool.negb_true_iff in Fb.
+    exact (c_sel_is_rank 1%N a b Fa Fb).
+  - repeat split; try (vm_compute; reflexivity). vm_compute. discriminate.
 Qed.
